@@ -341,6 +341,36 @@ def run(ctx):
                     break
     except ImportError:
         pass
+    # ---- one packet OBJECT written several times with its fields changed in between: every write is the encoding of the
+    # fields as they are at that moment (PluginResponsePacket infers `successful` from `data` when it was never assigned)
+    try:
+        from minecraft.networking.packets import serverbound as sb_
+        import refcodec as rc_
+        for v in [x for x in SUP if rank[x] >= rank[385]][:: max(1, len(SUP) // 12)]:
+            cx = ConnectionContext(protocol_version=v)
+            for seq in ([None, b'xy'], [b'xy', None], [None, b'', None], [b'a', b'bc', None, b'd']):
+                pk = sb_.login.PluginResponsePacket(cx)
+                pk.message_id = rng.randrange(0, 1000)
+                outs, wants = [], []
+                for d_ in seq:
+                    pk.data = d_
+                    buf = PacketBuffer()
+                    try:
+                        pk.write_fields(buf)
+                        outs.append(buf.get_writable().hex())
+                    except Exception as e:
+                        outs.append('raised %s' % type(e).__name__)
+                    wants.append((rc_.varint(pk.message_id) + (b'\x00' if d_ is None else b'\x01' + d_)).hex())
+                ctx.case(('rewrite-plugin-response', v, tuple(seq)))
+                if outs != wants:
+                    k_ = next(i for i, (a_, b_) in enumerate(zip(outs, wants)) if a_ != b_)
+                    ctx.violation('PluginResponsePacket at protocol %d written %d times with data = %r in turn: write #%d gives %s, the '
+                                  'encoding of its fields at that moment is %s' % (v, len(seq), seq, k_ + 1, outs[k_], wants[k_]),
+                                  {'version': v, 'data_sequence': [None if d_ is None else d_.hex() for d_ in seq]},
+                                  key={'kind': 'rewrite-plugin-response', 'seq': [d_ is None for d_ in seq]})
+                    break
+    except ImportError:
+        pass
     # ------------------------------------------------------------------ user-defined packets: random field lists
     from minecraft.networking.types import basic as B
     atoms = [('bool', B.Boolean), ('u8', B.UnsignedByte), ('i8', B.Byte), ('i16', B.Short), ('u16', B.UnsignedShort),
